@@ -359,13 +359,13 @@ def A_codec(name, level, **kw):
 
 def A_goenc(name, level, **kw):
     def run(ctx):
-        run_A(ctx, 'MCGoEnc', name, {'EmitOn': 'TRUE', 'Level': level, 'MaxNest': 10000}, invariants=('WellFormedOut',), spec='GSpec', **kw)
+        run_A(ctx, 'MCGoEnc', name, {'EmitOn': 'TRUE', 'Level': level, 'MaxNest': 10000, 'MaxDepth': 10000}, invariants=('WellFormedOut',), spec='GSpec', **kw)
     return run
 
 
 def A_godec(name, level, **kw):
     def run(ctx):
-        run_A(ctx, 'MCGoDec', name, {'EmitOn': 'TRUE', 'Level': level, 'MaxNest': 10000}, invariants=('TypeKept', 'Stable', 'NullIsZero', 'UseNumberOnlyIface', 'Modelled'),
+        run_A(ctx, 'MCGoDec', name, {'EmitOn': 'TRUE', 'Level': level, 'MaxNest': 10000, 'MaxDepth': 10000}, invariants=('TypeKept', 'Stable', 'NullIsZero', 'UseNumberOnlyIface', 'Modelled'),
               spec='DecSpec', **kw)
     return run
 
@@ -708,8 +708,8 @@ PLANS.update({
 
 PLANS.update({
     'C17': {
-        'quick': [A_words('w4', 4, 'full', extra_opt='wrap=0'), A_codec('enc', 2), A_goenc('go', 2), A_godec('godec', 1)],
-        'thorough': [A_words('w5', 5, 'full', extra_opt='wrap=0', timeout=9000), A_codec('enc', 3, timeout=9000), A_goenc('go', 2), A_godec('godec', 2, timeout=9000)],
+        'quick': [A_words('w4', 4, 'full', extra_opt='wrap=0'), A_codec('enc', 2), A_goenc('go', 3), A_godec('godec', 1)],
+        'thorough': [A_words('w5', 5, 'full', extra_opt='wrap=0', timeout=9000), A_codec('enc', 3, timeout=9000), A_goenc('go', 3), A_godec('godec', 2, timeout=9000)],
         'rule': 'words: for every word of the bounded language the codec\'s Compact, Indent (two prefix/indent pairs), HTMLEscape and '
                 'compact-with-escaping outputs must equal, byte for byte, the transducers of Scanner.tla (which TLC has checked to keep the '
                 'value); Unmarshal then Marshal/MarshalEscaped must reproduce the value read by the independent reader (numbers by literal); '
